@@ -9,7 +9,8 @@ RULE = ('2..4 per-thread programs of operation templates (syscalls with lookups,
         'exec data+string pairs, thread names, global strings, dyld ops with their own strings, sampler windows, page '
         'faults, launches; child tids, pids and string ids partitioned per program by construction) and a generated '
         'schedule (list of thread indexes, biased towards fine-grained alternation); records keep their own timestamps '
-        '(a record may be duplicated within one tick), and a thread may log a terminate record naming another thread. Oracle (metamorphic): the serial '
+        '(a record may be duplicated within one tick), a thread may log a terminate record naming another thread, and in 40% of the cases all '
+        'threads draw their calls from one pool of 1..3 names (process-creating calls at raised weight). Oracle (metamorphic): the serial '
         'schedule and the interleaved schedule, each on a fresh parser, give for every thread the same list of '
         '(rendered text, identity of the events in the window) and the same final pids_names, threads_pids, tids_names '
         'and global_strings. Non-trivial: the schedule splits a data/string pair or a START..END window with an event '
@@ -112,6 +113,8 @@ def prop_interleave(ctx, case):
         cls.add('pair-or-window-split')
     if inter != serial:
         cls.add('really-interleaved')
+    if case.get('shared_names'):
+        cls.add('same-calls-on-every-thread')
     ctx.note(None, nontrivial=split and inter != serial, classes=cls)
 
 
@@ -129,4 +132,12 @@ def schedule():
 def run(ctx):
     pairs = st.lists(st.tuples(st.integers(0, 3), st.integers(0, 40)).map(list), max_size=2)
     strat = st.fixed_dictionaries({'programs': SC.programs_strategy(2, 4, 6), 'schedule': schedule(), 'dups': pairs, 'terminates': pairs})
-    ctx.run_given('interleave', strat, prop_interleave, ctx.n(1200, 10000))
+    ctx.run_given('interleave', strat, prop_interleave, ctx.n(800, 7000))
+    # the same few calls on every thread (one thread's END may meet another thread's open START of the same call): a
+    # pool of 1..3 names per case, the process-creating calls at raised weight
+    special = ['BSC_execve', 'BSC_posix_spawn', 'BSC_mac_execve', 'BSC_vfork', 'BSC_fork', 'BSC_exit', 'BSC_bsdthread_create', 'BSC_wait4']
+    names = [n for n in special if n in set(SC.ordinary_names())]
+    pool = st.lists(st.one_of(st.sampled_from(SC.ordinary_names()), st.sampled_from(names)), min_size=1, max_size=3)
+    shared = pool.flatmap(lambda ns: st.fixed_dictionaries({'programs': SC.programs_strategy(2, 4, 6, names=ns), 'schedule': schedule(),
+                                                            'dups': pairs, 'terminates': pairs, 'shared_names': st.just(True)}))
+    ctx.run_given('interleave', shared, prop_interleave, ctx.n(600, 5000))
